@@ -5,7 +5,7 @@ V = os.path.dirname(os.path.dirname(os.path.abspath(__file__)))
 
 CHECKS = {
  "C01": dict(engine="mon-correlator", cat="exploration", tech="runtime trace monitor over recorded EventEncoder calls (bounded-exhaustive + seeded histories; API, parser/reassembler, daemon)",
-   text="Every history up to the stated length over a two-session alphabet (each prefix checked), plus seeded random multi-session histories, is executed against the real tracker, the real Auditd.Read and (thorough) the built daemon; every emitted UserAction's identity is compared with the login the harness delivered for the PID of the session's LOGIN record. Held on what was executed; exhaustive only for the stated bound.",
+   text="Every history up to the stated length over a two-session alphabet (each prefix checked), plus seeded random multi-session histories, is executed against the real tracker, the real Auditd.Read and (thorough) the built daemon; every emitted UserAction's identity is compared with the login the harness delivered for the PID of the session's LOGIN record. Held on what was executed; exhaustive only for the stated bound. Generated histories vary what real logs vary: timestamps that do not grow with delivery order, one session in three sharing account, address and host with another, every third record a failure, CRED_DISP from other pids than the login's, sessions holding hundreds of records.",
    note="Trusts the harness's own bookkeeping of what it delivered; unique identities/session ids/PIDs per history; auditevent and go-libaudit are the real libraries.", ref="4 C01"),
  "C02": dict(engine="mon-correlator", cat="exploration", tech="runtime trace monitor: exactly-once/in-order per session over recorded EventEncoder calls",
    text="Same executions as C01 with the login placed at every split point of the session's events and 1-4 sessions pending; per session the emitted list must equal the delivered list from the LOGIN record to the CRED_DISP, checked after every operation. A concurrent-delivery phase (events from one goroutine, login from another, delays at the hooked lock sites) checks the same list under real parallelism; cut-offs of harmless cleanups lie one second before process start, so a correlator that aged entries by record time would lose them. Thorough adds the built daemon.",
@@ -41,25 +41,25 @@ CHECKS = {
    text="Generated byte streams written to a real FIFO under five partitions with pauses; callback arguments must equal the delimiter-terminated records in order (modulo one trailing delimiter), the unterminated tail is never delivered, delivery stops at the injected callback error which is returned unchanged, end-of-stream is an error. One stream in eight stalls 400 ms in the middle of a record.",
    note="Both delimiter conventions are accepted for the callback argument.", ref="4 C12"),
  "C13": dict(engine="mon-pipe+mon-audit", cat="fault_enumeration", tech="state-confirmed cancellation injection with goroutine-dump hang classification; logical-clock check for deliveries after return; -race",
-   text="Worker x blocking state x downstream capacity enumerated; each state is confirmed from the goroutine dump before cancel(); the worker must return (stuck = parked after the watchdog, otherwise inconclusive) and nothing may be delivered after the observed return.",
+   text="Worker x blocking state x downstream capacity enumerated; each state is confirmed from the goroutine dump before cancel(); the worker must return (stuck = parked after the watchdog, otherwise inconclusive) and nothing may be delivered after the observed return. Audit processor states include parked in select with an unready correlator and flushing expired reassembler events; the ingester hand-off is cancelled in each of its four blocking branches; the processor under test is built with a context that is never cancelled, only the worker context is.",
    note="A blocked output writer is not among the listed states and is not injected.", ref="4 C13"),
  "C14": dict(engine="mon-audit", cat="exploration", tech="differential runtime monitor: emitted UserAction vs go-libaudit coalescing of fresh copies of the same lines; snapshot/aliasing check of the stored login",
    text="Sessions with a bound login and up to 500 record groups through Auditd.Read; every emitted UserAction is compared (type, component, timestamp, session, outcome per result token, action/how/object, process_args presence and content) with the event coalesced from fresh copies; the stored login is snapshotted before and after and the emitted subjects map is mutated to expose aliasing. In half of the batches the login arrives after 0-40 held groups, so the hold-queue flush is rendered and compared too. Kernel timestamps do not grow with delivery order (adjacent groups swapped, every fifth session backwards).",
    note="go-libaudit's aucoalesce is the oracle for the summary; the outcome expectation comes from the generator's token.", ref="4 C14"),
  "C15": dict(engine="mon-audit", cat="fault_enumeration", tech="fault enumeration on Auditd.Read under the race detector: malformed line / failing k-th write / invalid login / unparsable pid at every position, hang classification for swallowed faults; exactly-once whole-group check on interleaved streams",
-   text="Each fault kind is injected at every position in turn; Read must return an error that identifies the line or wraps the injected cause (errors.Is/As); a fault that leaves Read parked is a violation. Clean and line-wise interleaved streams must yield exactly one UserAction per kernel event that reflects all its records.",
+   text="Each fault kind is injected at every position in turn; Read must return an error that identifies the line or wraps the injected cause (errors.Is/As); a fault that leaves Read parked is a violation. Clean and line-wise interleaved streams must yield exactly one UserAction per kernel event that reflects all its records. Every kernel event carries a unique marker that must reappear in exactly one UserAction; two events per millisecond share a timestamp; three or more events are interleaved line-wise; in late-login streams the hold queue is flushed through a failing writer.",
    note="auparse.ParseLogLine is the judge of well-formedness.", ref="4 C15"),
  "C08": dict(engine="mon-daemon", cat="fault_enumeration", tech="process-level monitor on the built binary: fault injection per cause x load, wait4 status, SIGQUIT goroutine-dump hang classification; saturation precondition observed from writer stalls",
-   text="The daemon binary built from the working tree is run with two FIFOs; each failure cause is injected at idle and (where meaningful) while a pumping writer keeps the audit pipe full (observed: write(2) hit EAGAIN >= 5 times). The process must exit (a non-exit is a violation only when the SIGQUIT dump shows main parked in errgroup.Wait and a worker parked) with non-zero status after failures. Saturation is measured (>= 10000 lines in flight between pipe and output, the pump feeds events of a correlated session and injects in-stream); every cause is also run with the other pipe still waiting for its writer. Thorough repeats x3 and with the -race build.",
+   text="The daemon binary built from the working tree is run with two FIFOs; each failure cause is injected at idle and (where meaningful) while a pumping writer keeps the audit pipe full (observed: write(2) hit EAGAIN >= 5 times). The process must exit (a non-exit is a violation only when the SIGQUIT dump shows main parked in errgroup.Wait and a worker parked) with non-zero status after failures. Saturation is measured (>= 10000 lines in flight between pipe and output, the pump feeds events of a correlated session and injects in-stream); every cause is also run with the other pipe still waiting for its writer. Thorough repeats x3 and with the -race build. Scenario dimensions also include the log level (debug/info), the metrics/health HTTP server with a scraper that stops reading its response, and a pipe whose writer never appears.",
    note="A write failure triggered by a correlated audit event cannot be arranged on the binary (/dev/full fails the login event first); it is enumerated in-process by C15.", ref="4 C08"),
  "C10": dict(engine="mon-daemon", cat="exploration", tech="offline checker over the daemon's output file after a marker-session barrier; in-process logical-clock order check under the race detector",
-   text="Concurrent writers on both FIFOs (window 0..unbounded), 50-500 sessions, events up to 64 KiB; every output line must decode as exactly one JSON audit event with mandatory fields, no event key twice, each UserAction after the UserLogin carrying its identity. In-process: shared writer over the recorder, login line and LOGIN record released at the same instant, UserLogin write returns before any UserAction write with its identity starts. Thorough adds the -race daemon.",
+   text="Concurrent writers on both FIFOs (window 0..unbounded), 50-500 sessions, events up to 64 KiB; every output line must decode as exactly one JSON audit event with mandatory fields, no event key twice, each UserAction after the UserLogin carrying its identity. In-process: shared writer over the recorder, login line and LOGIN record released at the same instant, UserLogin write returns before any UserAction write with its identity starts. Thorough adds the -race daemon. A burst scenario keeps both pipelines writing for as long as the slower one needs, and a phased scenario delivers all audit records before any sshd line (every UserAction then comes from a hold-queue flush).",
    note="O_APPEND single-write atomicity is an observed OS property.", ref="4 C10"),
  "C03": dict(engine="mon-sched", cat="exploration", tech="controlled-schedule execution of the real code at hooked lock sites (exhaustive DFS re-execution for small programs, seeded random/priority schedules for larger ones) with a relative-atomicity oracle; Go race detector on perturbed free-running executions, Auditd.Read wiring and the -race daemon",
-   text="Nine small concurrent programs on one tracker are explored exhaustively at lock-acquisition granularity: the emitted events must equal what some sequential merge of the same operations produces when run against the same code, and no schedule may deadlock. Larger programs run under seeded random and priority schedules. Under -race the same programs run free with delays injected at the lock sites, Auditd.Read gets both halves of a session at the same instant, and the -race daemon is driven with concurrent writers; any race report is a violation.",
+   text="Ten small concurrent programs on one tracker are explored exhaustively at lock-acquisition granularity: the emitted events must equal what some sequential merge of the same operations produces when run against the same code, and no schedule may deadlock. Larger programs run under seeded random and priority schedules. Under -race the same programs run free with delays injected at the lock sites, Auditd.Read gets both halves of a session at the same instant, and the -race daemon is driven with concurrent writers; any race report is a violation. Programs include a cleanup racing one session's correlation while the other session's pending login (P9) or pending LOGIN record (P10) waits, with the other half arriving afterwards; trackers run with debug- and info-level loggers.",
    note="Schedule points are the hooked lock sites only; exhaustive at that granularity, sound for data-race-free code.", ref="4 C03, 3.1"),
  "C18": dict(engine="mon-health", cat="exploration", tech="sequential reference-model monitor (bounded-exhaustive), controlled-schedule exploration at hooked lock sites, porcupine linearizability checking of recorded histories, -race perturbed histories, logical-clock check of WaitForReady",
-   text="Every Add/OnReady/Get sequence of the stated length against the 15-line map model; five concurrent programs explored exhaustively at lock granularity and 8-goroutine free-running histories under -race: every /readyz response is checked for internal consistency (code vs overall vs components) and every history for linearizability against the sequential map; WaitForReady must not fire before the last component was marked ready and must yield the context error when cancelled first.",
+   text="Every Add/OnReady/Get sequence of the stated length against the 15-line map model; five concurrent programs explored exhaustively at lock granularity and 8-goroutine free-running histories under -race: every /readyz response is checked for internal consistency (code vs overall vs components) and every history for linearizability against the sequential map; WaitForReady must not fire before the last component was marked ready and must yield the context error when cancelled first. WaitForReady is also cancelled first and the components marked ready afterwards (the context error must still be what it yields).",
    note="Component names never equal the reserved key 'overall'.", ref="4 C18"),
  "C20": dict(engine="mon-dirreader", cat="exploration", tech="file-system-history oracle over an in-memory fs and injected fsnotify events (build-tag constructor), bounded-exhaustive + seeded; real fs for start-up order; -race",
    text="Every operation sequence of the stated length over append/partial/complete/rotate/truncate for four start-up states, start-up directories with 0..1000 rotated files, seeded random histories with long lines; after every operation (event + sentinel barrier) the delivered lines must equal the complete lines the harness wrote, in order. The real StartLogDirReader is run on real directories for the start-up order.",
